@@ -9,8 +9,9 @@
   `l₁ ~ l₂` of the same container — a statement over ALL seeds and layouts, for all inputs, in
   particular inputs full of ties (equal starts, equal scores, equal coordinates).
 
-  The model is the code with the fixes D11, D26 (C13) and D1701–D1705 (this property) applied; the
-  `…Old` definitions are the code before those fixes and carry the negation witnesses.
+  The model is the code with the fixes D11, D26 (C13), 9b15a948 (sorted definition domains: D1701,
+  D1702) and D1703–D1705 (this property's patches) applied; the `…Old` definitions are the code
+  before those fixes and carry the negation witnesses.
   Stages owned by other properties (C03 find_protoclusters / apply_cluster_rules, C05 candidate
   formation, C06 create_regions) are not modelled here, see design/C17.md.
 -/
